@@ -469,6 +469,23 @@ func checkC04(w *core.W) {
 						} else if !model.Equal(got, want) {
 							w.Fail("wrong", sigp+diffKind(got, want), wit, "got "+model.Src(got)+" want "+model.Src(want))
 						} else if s, ok := o.V.(rel.Set); ok {
+							// unnest inverts nest, at source level ...
+							if ue, _ := obs.Compile("(" + src + ") unnest n"); ue != nil {
+								uo := obs.Eval(ue, obs.Scope("x", a.v))
+								switch {
+								case uo.Panic != "":
+									w.Fail("panic", uo.Panic, "("+wit+") unnest n", "")
+								case uo.Err != nil:
+									w.Fail("wrong", "unnest|"+hclass(a.r)+"|source-level-error", "("+wit+") unnest n", core.NormMsg(uo.Err.Error()))
+								default:
+									if um, err := obs.Denote(uo.V); err != nil || !model.Equal(um, a.r.m) {
+										w.Fail("wrong", "unnest|"+hclass(a.r)+"|source-level-does-not-invert-nest", "("+wit+") unnest n", "")
+									}
+								}
+							} else {
+								w.Fail("wrong", "unnest|does-not-compile", "("+wit+") unnest n", "")
+							}
+							// ... and through the Go API
 							// unnest inverts nest (Go API: the compiler cannot compile `unnest`)
 							var un rel.Set
 							var uerr error
@@ -539,6 +556,6 @@ func checkC04(w *core.W) {
 
 var C04 = core.Check{
 	ID: "C04", Level: "exploration", Fn: checkC04, Watchdog: 60 * time.Second,
-	Rule:   "operands = every relation over the headings {a},{b},{a,b},{b,c},{a,c},{a,b,c},{b,c,d},{a,b,d},{@,@item},{@,x},{@,@char},{@},{@,@value} with every body of <=2 (quick) / <=3 (thorough) rows over {0,1}, each in up to 7 construction paths (relation literal, column-reversed literal, set of tuple literals, => ., union of single rows, where-filtered superset, sugar literal); all ordered pairs x the 8 join operators compared with the natural join computed by definition and its documented projections, plus `result = literal` both ways round for <&> and <->; nest / nest ~ over every proper attribute subset with unnest (Go API) inverting it; rank by every attribute (ties included). non-trivial = both operands non-empty / more than one row",
-	Assume: []string{"reference model: natural join by definition; the seven variants as projections onto x∪z, y, {}, y∪z, x∪y, z, x", "bodies with two rows sharing @ and differing in the sugar payload are excluded (known-broken region covered by C01)", "unnest is exercised through rel.Unnest because the compiler cannot compile `unnest` (recorded under C10)"},
+	Rule:   "operands = every relation over the headings {a},{b},{a,b},{b,c},{a,c},{a,b,c},{b,c,d},{a,b,d},{@,@item},{@,x},{@,@char},{@},{@,@value} with every body of <=2 (quick) / <=3 (thorough) rows over {0,1}, each in up to 7 construction paths (relation literal, column-reversed literal, set of tuple literals, => ., union of single rows, where-filtered superset, sugar literal); all ordered pairs x the 8 join operators compared with the natural join computed by definition and its documented projections, plus `result = literal` both ways round for <&> and <->; nest / nest ~ over every proper attribute subset with unnest (source level and Go API) inverting it; rank by every attribute (ties included). non-trivial = both operands non-empty / more than one row",
+	Assume: []string{"reference model: natural join by definition; the seven variants as projections onto x∪z, y, {}, y∪z, x∪y, z, x", "bodies with two rows sharing @ and differing in the sugar payload are excluded (known-broken region covered by C01)", "unnest is exercised both from source and through rel.Unnest"},
 }
